@@ -21,7 +21,8 @@ class ArbiterWorld(World):
     stub_components = ("N Wishbone initiators (seeded agents)", "shared-bus target (seeded agent)")
     fault_kinds = ("byzantine_cycle", "lock_hold", "early_release", "cyc_without_stb",
                    "wait_state", "err_response", "rty_response", "stall", "spontaneous_response",
-                   "contention")
+                   "contention", "rejected_add", "elaborated_while_still_being_populated",
+                   "second_instance_in_process")
     assumptions = (
         "Amaranth's Python RTL simulator executes the elaborated netlist faithfully",
         "bounded liveness is asserted only in protocol mode (every owner eventually releases); "
@@ -58,14 +59,16 @@ class ArbiterWorld(World):
         for i in range(n):
             ig = rng.choice([x for x in (8, 16, 32, 64) if g <= x <= dw])
             f = rng.subset(FEATS)
-            if not rng.chance(0.03):
+            if not rng.chance(0.10):
                 for o in ("err", "rty"):
                     if o in feats and o not in f:
                         f.append(o)
             intrs.append({"g": ig, "feats": sorted(f)})
         mode = rng.wchoice([("byz", 4), ("proto", 3), ("mixed", 3)])
         return {"aw": aw, "dw": dw, "g": g, "feats": sorted(feats), "intrs": intrs, "mode": mode,
-                "feats_as": rng.choice(["str", "str", "enum"])}
+                "feats_as": rng.choice(["str", "str", "enum"]),
+                "mid_elab": rng.range(1, n) if (n > 1 and rng.chance(0.12)) else None,
+                "decoy": int(rng.chance(0.1))}
 
     def gen_ops(self, rng, config, prop):
         ops = []
@@ -111,7 +114,13 @@ class ArbiterWorld(World):
                              f"features={sorted(feats)})", wishbone.Arbiter, addr_width=aw,
                              data_width=dw, granularity=g, features=spell(feats))
         intrs = []
+        mid = config.get("mid_elab")
         for i, ic in enumerate(config["intrs"]):
+            if mid is not None and i == mid and i > 0:
+                # API-order fault: the arbiter is elaborated once (e.g. converted) while it is
+                # still being populated; more initiators are added afterwards
+                hw.elaborate_once(dut)
+                stats.fault("elaborated_while_still_being_populated")
             ib = hw.construct(wishbone.Interface, addr_width=aw, data_width=dw,
                               granularity=ic["g"], features=spell(ic["feats"]), path=(f"i{i}",))
             if all(o in ic["feats"] for o in ("err", "rty") if o in feats):
@@ -119,8 +128,27 @@ class ArbiterWorld(World):
                                f"Arbiter.add(initiator granularity={ic['g']}, features={ic['feats']})",
                                dut.add, ib)
             else:
-                hw.construct(dut.add, ib)
+                # fault: an initiator the arbiter has to refuse; the caller carries on
+                try:
+                    dut.add(ib)
+                    raise Violation("C08" if "C08" in props else "C09",
+                                    "initiator-without-required-input-accepted", 0, f"{ic}")
+                except ValueError:
+                    stats.fault("rejected_add")
+                    continue
             intrs.append((ib, ic["g"], set(ic["feats"])))
+        if config.get("decoy"):
+            # a second arbiter is built afterwards in the same process (state shared between
+            # instances must not leak into the first)
+            d2 = wishbone.Arbiter(addr_width=aw, data_width=dw, granularity=g, features=spell(feats))
+            for ic in config["intrs"][:2]:
+                try:
+                    d2.add(wishbone.Interface(addr_width=aw, data_width=dw, granularity=ic["g"],
+                                              features=spell(ic["feats"])))
+                except ValueError:
+                    pass
+            hw.elaborate_once(d2)
+            stats.fault("second_instance_in_process")
         n = len(intrs)
         if n == 0 or n > 8:
             from simkit.core import Refused
